@@ -464,7 +464,7 @@ func init() {
 		scs, _ := c10Scenarios(&Ctx{Tier: "quick"})
 		reps := 30
 		if tier == "thorough" {
-			reps = 300
+			reps = 100
 		}
 		n, runs, hangs := 0, 0, 0
 		for _, sc := range scs {
